@@ -97,6 +97,8 @@ macro_rules! verif_replay_table {
     };
 }
 
+pub(crate) use verif_replay_table;
+
 /// Implemented in the `*_perf.rs` hook modules (which can see the private fields).
 pub(crate) trait VerifPerf {
     type Attrs;
